@@ -180,6 +180,20 @@ def check(ctx, cv, sel, case, tag):
         want = np.array([cyc_vals[l] if l >= 0 else np.nan for l in cv])
         if not same(call('project_cycles_to_samples', cyc_vals, cv), want):
             V('project_cycles_to_samples', 'per-cycle values not placed on exactly the samples of each cycle', case); return
+        if ctx.evaluations % 4 == 0 and len(cyc_vals) > 1:
+            # the same per-cycle data addressed by cycle number in a keyed container filled in another order (results collected as
+            # they complete, a sorted table): item k's value is vals[k]
+            order = ctx.rng.permutation(len(cyc_vals))
+            keyed = {int(k): float(cyc_vals[k]) for k in order}
+            ctx.count('projections_of_keyed_values')
+            if not same(call('project_cycles_to_samples', keyed, cv), want):
+                V('project_cycles_to_samples:keyed-values', 'per-cycle values given as {cycle: value} (filled in another order) are not placed on the samples of '
+                  'their cycles', case); return
+            import pandas as pd
+            ser = pd.Series([float(cyc_vals[k]) for k in order], index=[int(k) for k in order])
+            if not same(call('project_cycles_to_samples', ser, cv), want):
+                V('project_cycles_to_samples:keyed-values', 'per-cycle values given as a Series indexed by cycle number (rows in another order) are not placed '
+                  'on the samples of their cycles', case); return
         want = np.array([sub_vals[sv[c]] if sel[c] else np.nan for c in range(K)])
         if not same(call('project_subset_to_cycles', sub_vals, sv), want):
             V('project_subset_to_cycles', 'per-subset values not placed on exactly the selected cycles', case); return
